@@ -148,6 +148,19 @@ def main(tier):
         events.append({"op": "FromFloat", "call": repr(x), "x": xr, "obs": d9(float(fv)), "frac_lt_1": abs(fr) < 1,
                        "signs_ok": fv.number * x >= 0 and fr * x >= 0, "number_integral": float(fv.number) == int(fv.number),
                        "result": repr(fv)})
+    # a Fraction against the short decimal it equals (and its neighbours): ==, !=, <, <=, >, >= follow the exact order
+    import fractions as _fr
+    for den in (10, 100, 1000):
+        for num_ in range(-3 * den, 3 * den + 1, 1 if den <= 100 else 7):
+            A = Fraction(num_, den)
+            for delta in (0, 1, -1):
+                x = (num_ + delta) / den
+                c_ = (num_ > num_ + delta) - (num_ < num_ + delta) if _fr.Fraction(repr(x)) == _fr.Fraction(num_ + delta, den) else None
+                if c_ is None:
+                    continue
+                obs = [P.outcome(f)[1] for f in (lambda: A == x, lambda: A != x, lambda: A < x, lambda: A <= x, lambda: A > x, lambda: A >= x)]
+                events.append({"op": "Bool", "call": "Fraction(%d, %d) against the plain number %r" % (num_, den, x), "a": [bool(o) if isinstance(o, bool) else str(o) for o in obs],
+                               "b": [c_ == 0, c_ != 0, c_ < 0, c_ <= 0, c_ > 0, c_ >= 0]})
     # FractionScalar vs Scalar on the real table
     db = export.build_db("default")
     proj = export.project_db(db)
